@@ -134,10 +134,47 @@ def check_case(case, ctx):
         check(f"episode {episode} step {k}: ({j},{p}) on {m}")
         ctx.count("steps")
 
+    # reward observers attached in the middle of a history account for what
+    # happens from then on
+    drv2 = Driver(inst, None)
+    d2 = drv2.dispatcher
+    k_attach = (len(history) + n) % (n + 1)
+    late_mk = late_idle = None
+    base_mk = base_idle = 0
+    for kk in range(n):
+        if kk == k_attach:
+            rows0 = fp.schedule_rows(d2.schedule)
+            base_mk, base_idle = feasible.makespan(rows0), idle_from_rows(rows0)
+            late_mk, late_idle = MakespanReward(d2), IdleTimeReward(d2)
+        a, b = history[kk] if kk < len(history) else (0, 0)
+        drv2.step(a, b, "ready")
+        if late_mk is not None:
+            rows2 = fp.schedule_rows(d2.schedule)
+            for name, r, want in (
+                ("MakespanReward", late_mk, -(feasible.makespan(rows2) - base_mk)),
+                ("IdleTimeReward", late_idle, -(idle_from_rows(rows2) - base_idle)),
+            ):
+                ctx.check(
+                    len(r.rewards) == kk + 1 - k_attach and sum(r.rewards) == want,
+                    "late-attached:" + name,
+                    f"{name} attached after {k_attach} dispatches: after dispatch {kk} rewards {r.rewards}, "
+                    f"expected {kk + 1 - k_attach} rewards summing to {want}",
+                )
+
     # the same through the environment (first complete episode's choices)
     instance = build_instance(inst)
     builder = build_disjunctive_graph if case["env_graph"] == "disjunctive" else build_agent_task_graph
     rcls = MakespanReward if case["env_reward"] == "makespan" else IdleTimeReward
+    if len(history) % 4 == 0:
+        # a user-defined reward: subclasses RewardObserver and appends to the
+        # public `rewards` list, as the built-in ones do
+        from job_shop_lib.reinforcement_learning import RewardObserver
+
+        class NegativeDuration(RewardObserver):
+            def update(self, scheduled_operation):
+                self.rewards.append(-scheduled_operation.operation.duration)
+
+        rcls = NegativeDuration
     env = SingleJobShopGraphEnv(
         builder(instance),
         [DispatcherObserverConfig(FeatureObserverType.IS_READY)],
@@ -166,12 +203,49 @@ def check_case(case, ctx):
             )
             total += reward
             rows = fp.schedule_rows(env.dispatcher.schedule)
-            want = -feasible.makespan(rows) if rcls is MakespanReward else -idle_from_rows(rows)
+            if rcls is MakespanReward:
+                want = -feasible.makespan(rows)
+            elif rcls is IdleTimeReward:
+                want = -idle_from_rows(rows)
+            else:
+                want = -sum(e - s for lst in rows for (_j, _p, s, e, _m) in lst)
             ctx.check(
                 total == want and reward <= 0,
                 "env-sum",
                 f"env episode {ep} step {kk}: running sum of step rewards {total}, expected {want}",
             )
+    if len(history) % 5 == 0:
+        from job_shop_lib.generation import GeneralInstanceGenerator
+        from job_shop_lib.reinforcement_learning import MultiJobShopGraphEnv
+
+        menv = MultiJobShopGraphEnv(
+            GeneralInstanceGenerator(num_jobs=(1, 3), num_machines=(1, 3), duration_range=(1, 5), seed=len(history)),
+            [DispatcherObserverConfig(FeatureObserverType.IS_READY)],
+            reward_function_config=DispatcherObserverConfig(rcls if rcls in (MakespanReward, IdleTimeReward) else MakespanReward),
+        )
+        for ep in range(3):
+            menv.reset()
+            if ep == 1:
+                # the reward function is replaced through the public setter
+                other_cls = MakespanReward if isinstance(menv.reward_function, IdleTimeReward) else IdleTimeReward
+                menv.reward_function = other_cls(menv.dispatcher)
+            total = 0
+            kk = 0
+            while not menv.dispatcher.schedule.is_complete():
+                op = menv.dispatcher.raw_ready_operations()[kk % len(menv.dispatcher.raw_ready_operations())]
+                _o, reward, _d, _t, _i = menv.step((op.job_id, op.machines[0]))
+                kk += 1
+                rf = menv.reward_function
+                ctx.check(
+                    rf.dispatcher is menv.dispatcher and len(rf.rewards) == kk and reward == rf.rewards[-1],
+                    "multi-env-step-reward",
+                    f"multi env episode {ep} step {kk}: step returned {reward}; env.reward_function holds "
+                    f"{len(rf.rewards)} rewards and observes {'this' if rf.dispatcher is menv.dispatcher else 'another'} episode's dispatcher",
+                )
+                total += reward
+            rowsm = fp.schedule_rows(menv.dispatcher.schedule)
+            want = -feasible.makespan(rowsm) if isinstance(menv.reward_function, MakespanReward) else -idle_from_rows(rowsm)
+            ctx.check(total == want, "multi-env-sum", f"multi env episode {ep}: step rewards sum to {total}, expected {want} for {type(menv.reward_function).__name__}")
     ctx.label(*gen.inst_labels(inst))
     ctx.label(f"episodes={episode + 1}")
     ctx.nontrivial = saw_flat and saw_idle
